@@ -114,3 +114,63 @@ Proof.
   split; [reflexivity|]. split; [|exact W].
   assert (img_get im' (2048 + 64) = 80) as -> by (cbn [map] in B; injection B as _ _ B _ _; exact B). rewrite Z. discriminate.
 Qed.
+
+(* ---- NotEnoughSpace AFTER a partial growth: ex_part_im = the volume with D filled to 14 of 16 slots (four 3-slot entries) and the
+   file F owning clusters 4 .. 61: exactly ONE cluster (3) is free.  A 255-character name needs 21 slots = the 2 free tail slots,
+   a whole new cluster and 3 slots of a second one.  The first allocation succeeds (cluster 3: zeroed, linked, 16 long-name slots
+   written), the second one fails: NotEnoughSpace - and the directory KEEPS the new cluster: chain [2; 3], free count 1 -> 0, the
+   hint moved; the one finding is the orphan run of 18 slots. *)
+Definition ex_file_slot4 : list N :=
+  [70; 32; 32; 32; 32; 32; 32; 32; 32; 32; 32; 32; 0; 0; 0; 0; 33; 0; 33; 0; 0; 0; 0; 0; 33; 0; 4; 0; 0; 116; 0; 0].   (* cluster 4, size 58 * 512 *)
+Definition ex_name3 (d : N) : str := repeat_N 97 13 ++ [48 + d].                                  (* 14 characters: 2 + 1 slots *)
+Definition ex_part_im : image :=
+  let im0 := img_write (fs_img (ex_link (store_of (parse_geom ex_sub_im) ex_sub_im) 4 57)) (1536 + 64) ex_file_slot4 in
+  fold_left (fun im d => fst (fst (snd (vol_create_file_grow upper_ascii oem_decode_lossy im ex_fi0 [2] (ex_name3 d) ex_vol_now))))
+            [0; 1; 2; 3] im0.
+Definition ex_name255 : str := repeat_N 120 255.
+
+Lemma ex_part_premises :
+  chain_geom (parse_geom ex_part_im) /\ FatProofs.bytes_ok ex_part_im /\
+  fi_inv fstore (val_ft (ft_of (parse_geom ex_part_im))) (store_of (parse_geom ex_part_im) ex_part_im) ex_fi0 (g_clusters (parse_geom ex_part_im)) /\
+  Wf.wf_issues (fun x => x) ex_part_im = [] /\
+  (exists ed children rb, v_root (abs ex_part_im) = [] ++ NDir ed (Some [2]) children [] [] :: rb) /\
+  chain_small (parse_geom ex_part_im) [2] /\ TimeProofs.datetime_valid ex_vol_now = true /\
+  count_free (parse_geom ex_part_im) ex_part_im = 1.
+Proof.
+  destruct ex_sub_premises as (Hg & _ & Hsm & _).
+  assert (parse_geom ex_part_im = parse_geom ex_sub_im) as Epg by (vm_compute; reflexivity). rewrite Epg.
+  split; [exact Hg|]. split; [apply bytes_ok_check; vm_compute; reflexivity|]. split; [split; exact I|].
+  split; [vm_compute; reflexivity|]. split; [do 3 eexists; vm_compute; reflexivity|]. split; [exact Hsm|]. split; vm_compute; reflexivity.
+Qed.
+
+Example ex_grow_partial_nospace :
+  match vol_create_file_grow upper_ascii oem_decode_lossy ex_part_im ex_fi0 [2] ex_name255 ex_vol_now with
+  | (r, (im', fi', l')) =>
+    r = Err ENotEnoughSpace /\ l' = [2; 3] /\ fi' = {| fi_free := None; fi_next := Some 4; fi_dirty := true |} /\
+    count_free (parse_geom ex_part_im) im' = 0 /\
+    fat_val (parse_geom ex_part_im) ex_part_im 3 = FFree /\ fat_val (parse_geom ex_part_im) im' 2 = FNext 3 /\
+    fat_val (parse_geom ex_part_im) im' 3 = FEoc /\
+    Wf.wf_issues (fun x => x) im' = [Wf.WOrphanLfn 2 32] /\
+    map (fun x => snd (fst x)) (ex_kids im') = map (fun x => snd (fst x)) (ex_kids ex_part_im)
+  end.
+Proof. vm_compute. repeat split. Qed.
+
+Theorem grow_nospace_keeps_count_refuted :
+  exists im fi l name now im' fi' l',
+    chain_geom (parse_geom im) /\ FatProofs.bytes_ok im /\
+    fi_inv fstore (val_ft (ft_of (parse_geom im))) (store_of (parse_geom im) im) fi (g_clusters (parse_geom im)) /\
+    Wf.wf_issues (fun x => x) im = [] /\ chain_small (parse_geom im) l /\ TimeProofs.datetime_valid now = true /\
+    (exists ra ed children labels rb, v_root (abs im) = ra ++ NDir ed (Some l) children [] labels :: rb) /\
+    vol_create_file_grow upper_ascii oem_decode_lossy im fi l name now = (Err ENotEnoughSpace, (im', fi', l')) /\
+    count_free (parse_geom im) im = 1 /\ count_free (parse_geom im) im' = 0 /\ l' = l ++ [3] /\
+    Wf.wf_issues (fun x => x) im' = [Wf.WOrphanLfn 2 32].
+Proof.
+  destruct ex_part_premises as (P1 & P2 & P3 & P4 & (ed & ch & rb & P5) & P6 & P7 & P8).
+  exists ex_part_im, ex_fi0, [2], ex_name255, ex_vol_now.
+  destruct (vol_create_file_grow upper_ascii oem_decode_lossy ex_part_im ex_fi0 [2] ex_name255 ex_vol_now) as [r [[im' fi'] l']] eqn:E.
+  exists im', fi', l'.
+  split; [exact P1|]. split; [exact P2|]. split; [exact P3|]. split; [exact P4|]. split; [exact P6|]. split; [exact P7|].
+  split; [exists [], ed, ch, [], rb; exact P5|].
+  pose proof ex_grow_partial_nospace as X. rewrite E in X. destruct X as (-> & -> & _ & C & _ & _ & _ & W & _).
+  split; [reflexivity|]. split; [exact P8|]. split; [exact C|]. split; [reflexivity|exact W].
+Qed.
